@@ -79,6 +79,25 @@ package utils
 //@   safe
 //@ end
 
+// allocating variants: the 8 bytes are the value's own little-endian bits
+//@ func Uint64ToBytesLittleEndian
+//@   props C01 C04
+//@   ensures len(result) == 8 && le64(result) == val
+//@   pure
+//@   safe
+//@ end
+// (these two go through encoding/binary.Write into a bytes.Buffer: ASSUMED)
+//@ func Int64ToBytesLittleEndian
+//@   assumed
+//@   pure
+//@   ensures len(result) == 8 && le64(result) == uint64(signedval)
+//@ end
+//@ func Float64ToBytesLittleEndian
+//@   assumed
+//@   pure
+//@   ensures len(result) == 8 && le64(result) == f64bits(val)
+//@ end
+
 //@ func Uint64ToBytesLittleEndianInplace
 //@   props C01
 //@   requires len(buf) >= 8
